@@ -164,6 +164,7 @@ def space(tier):
     parts.append(Tagged("dispatch", Product(range(len(dispatch_cases())))))
     parts.append(Tagged("rescale", Product(range(len(rescale_cases(tier))), [tier])))
     parts.append(Tagged("kmix", Product(range(len(kmix_cases())))))
+    parts.append(Tagged("tosa", Product(range(len(tosa_cases())))))
     return Concat(*parts)
 
 
@@ -437,6 +438,78 @@ def eval_rescale(r: CaseResult, idx, tier):
             break
 
 
+# ------------------------------------------------------------------------------------------------ tosa.rescale (+ clamp) -> kernel.rescale
+
+_TOSA = []
+
+
+def tosa_cases():
+    if not _TOSA:
+        for rm in ("DOUBLE_ROUND", "SINGLE_ROUND"):
+            for oty in ("i8", "i32", "i16"):
+                for clamp in (None, (-90, 100), (-128, 127), (0, 6)):
+                    for zps in ((0, -128), (3, -5), (-7, 9)):
+                        for ms in (((1085889731,), (37,)), ((7,), (9,)), ((1000, 1007, 1014, 1021), (10, 11, 12, 13))):
+                            for shape in ("8", "?x4"):
+                                _TOSA.append((rm, oty, clamp, zps, ms, shape))
+    return _TOSA
+
+
+def eval_tosa(r: CaseResult, idx):
+    rm, oty, clamp, (zi, zo), (mults, shifts), shape = tosa_cases()[idx]
+    nch = len(mults)
+    dense = lambda vs: "dense<" + (str(vs[0]) if len(vs) == 1 else "[" + ", ".join(map(str, vs)) + "]") + ">"  # noqa: E731
+    c = f"  %2 = tosa.clamp %1 {{max_val = {clamp[1]} : {oty}, min_val = {clamp[0]} : {oty}}} : (tensor<{shape}x{oty}>) -> tensor<{shape}x{oty}>\n" if clamp else ""
+    text = (
+        f"builtin.module {{\nfunc.func @f(%0 : tensor<{shape}xi32>) -> tensor<{shape}x{oty}> {{\n"
+        f'  %izp = "tosa.const"() <{{ values = dense<{zi}> : tensor<1xi32> }}> : () -> tensor<1xi32>\n'
+        f'  %ozp = "tosa.const"() <{{ values = dense<{zo}> : tensor<1xi32> }}> : () -> tensor<1xi32>\n'
+        f'  %mul = "tosa.const"() <{{ values = {dense(mults)} : tensor<{nch}xi32> }}> : () -> tensor<{nch}xi32>\n'
+        f'  %sh = "tosa.const"() <{{ values = {dense(shifts)} : tensor<{nch}xi32> }}> : () -> tensor<{nch}xi32>\n'
+        f"  %1 = tosa.rescale %0, %mul, %sh, %izp, %ozp {{rounding_mode = {rm}, per_channel = {'true' if nch > 1 else 'false'}, scale32 = true, input_unsigned = false, output_unsigned = false}} : "
+        f"(tensor<{shape}xi32>, tensor<{nch}xi32>, tensor<{nch}xi32>, tensor<1xi32>, tensor<1xi32>) -> tensor<{shape}x{oty}>\n"
+        + c + f"  func.return {'%2' if clamp else '%1'} : tensor<{shape}x{oty}>\n}}\n}}\n"
+    )
+    key = f"tosa|{tosa_cases()[idx]!r}"
+    case = dict(kind="tosa", idx=idx, program=text)
+    try:
+        mod = common.compile_text(text, "convert-tosa-to-kernel")
+    except common.Rejected as e:
+        r.rejected = e.kind
+        r.count("tosa_rejected:" + str(e)[:70])
+        return
+    ks = [op for op in mod.walk() if op.name == "kernel.rescale"]
+    left = [op for op in mod.walk() if op.name in ("tosa.rescale", "tosa.clamp")]
+    r.obs = ("tosa", tosa_cases()[idx], len(ks))
+    r.states = 1
+    r.validated = 1
+    r.nontrivial = bool(ks)
+    r.sample = dict(kind="tosa", program=text, converted=bool(ks))
+    if not ks:
+        if common.to_text(mod) != common.to_text(common.parse(text)):
+            r.violate(key + "|changed", case, "no kernel.rescale was produced but the program changed")
+        return
+    if len(ks) != 1 or left:
+        r.violate(key + "|shape", case, f"{len(ks)} kernel.rescale ops, {len(left)} tosa rescale/clamp ops left")
+        return
+    k = ks[0]
+    w = int(oty[1:])
+    want = dict(
+        input_zp=zi, output_zp=zo, multiplier=tuple(mults), shift=tuple(shifts), double_round=rm == "DOUBLE_ROUND",
+        min_int=clamp[0] if clamp else -(1 << (w - 1)), max_int=clamp[1] if clamp else (1 << (w - 1)) - 1,
+    )
+    got = dict(
+        input_zp=k.input_zp.value.data, output_zp=k.output_zp.value.data, multiplier=tuple(k.multiplier.get_values()), shift=tuple(k.shift.get_values()),
+        double_round=bool(k.double_round.value.data), min_int=k.min_int.value.data, max_int=k.max_int.value.data,
+    )
+    if str(k.results[0].type) != oty or str(k.operands[0].type) != "i32":
+        r.violate(key + "|types", case, f"kernel.rescale has type ({k.operands[0].type}) -> {k.results[0].type}, the tosa ops are (i32) -> {oty}")
+    for f_ in want:
+        if want[f_] != got[f_]:
+            r.violate(key + "|param", case, f"tosa.rescale{' + clamp' if clamp else ''} with {f_} = {want[f_]} became kernel.rescale with {f_} = {got[f_]}")
+            return
+
+
 # ------------------------------------------------------------------------------------------------ hand-given kernel bodies (expansion only)
 
 _KMIX = []
@@ -549,6 +622,8 @@ def evaluate(case) -> CaseResult:
         eval_body_case(r, *p)
     elif kind == "kmix":
         eval_kmix(r, *p)
+    elif kind == "tosa":
+        eval_tosa(r, *p)
     elif kind == "dispatch":
         eval_dispatch(r, *p)
     else:
@@ -565,6 +640,8 @@ def replay(case):
         eval_dispatch(r, case["idx"])
     elif case["kind"] == "kmix":
         eval_kmix(r, case["idx"])
+    elif case["kind"] == "tosa":
+        eval_tosa(r, case["idx"])
     else:
         eval_rescale(r, case["idx"], case["tier"])
     return r.violations
